@@ -58,6 +58,19 @@ Theorem C15_points_back_service : forall rp rn ds short b mj mn port,
 Proof. exact composite_of_svc. Qed.
 Print Assumptions C15_points_back_service.
 
+(* the request and the response section of an accepted service are named <service>.Request / <service>.Response and
+   report the same file and the same root namespace directory as the service *)
+Theorem C15_points_back_sections : forall rp rn ds short b mj mn port,
+  let root := rp ++ [rn] in
+  let file := root ++ ds ++ [b] in
+  let cs := (rn :: ds) ++ [short] in
+  Forall no_dot cs ->
+  svc_checks cs mj mn port = true ->
+  composite_init (join_with dot cs ++ REQUEST) mj mn None file true false = Ok (join_with dot cs ++ REQUEST, root) /\
+  composite_init (join_with dot cs ++ RESPONSE) mj mn None file true false = Ok (join_with dot cs ++ RESPONSE, root).
+Proof. exact composite_sections. Qed.
+Print Assumptions C15_points_back_sections.
+
 (* both layers together: what a reader observes of one file under one root *)
 Theorem C15_identity : forall fs rp rn file i,
   let root := rp ++ [rn] in
